@@ -1,5 +1,5 @@
 (* C13 - Over-long names are cut on a character boundary; over-long icons are dropped. *)
-From Ctap Require Import Base Schema Wire Utf8 Typed Procs Inst Tables Limits WireP TypedP FramingP Utf8P StrsP ObRequestSide FnShapes Shapes ObShapeStrings WellTyped LimitsP.
+From Ctap Require Import Base Schema Wire Utf8 Typed Procs Inst Tables Limits WireP TypedP FramingP Utf8P StrsP ObRequestSide FnShapes Shapes ObShapeStrings WellTyped LimitsP Deps ObDeps.
 Local Open Scope string_scope.
 Local Open Scope Z_scope.
 
@@ -96,6 +96,10 @@ Proof. vm_compute. reflexivity. Qed.
 Theorem c13_modelled_functions_unchanged_strings : shapes_hold fn_shapes shapes_strings = true.
 Proof. exact generated_shapes_strings. Qed.
 
+(* the third-party crates the model represents by hand are pinned at the versions it was written against *)
+Theorem c13_modelled_dependencies_pinned : deps_hold lock_versions cargo_deps = true.
+Proof. exact generated_deps. Qed.
+
 Eval vm_compute in "ASSUMPTIONS c13_fits_unchanged". Print Assumptions c13_fits_unchanged.
 Eval vm_compute in "ASSUMPTIONS c13_truncate". Print Assumptions c13_truncate.
 Eval vm_compute in "ASSUMPTIONS c13_floor_never_panics". Print Assumptions c13_floor_never_panics.
@@ -106,3 +110,4 @@ Eval vm_compute in "ASSUMPTIONS c13_limits_generated". Print Assumptions c13_lim
 Eval vm_compute in "ASSUMPTIONS c13_generated_conforms". Print Assumptions c13_generated_conforms.
 Eval vm_compute in "ASSUMPTIONS c13_modelled_functions_unchanged_strings". Print Assumptions c13_modelled_functions_unchanged_strings.
 Eval vm_compute in "ASSUMPTIONS c13_lossy_members_always_bounded". Print Assumptions c13_lossy_members_always_bounded.
+Eval vm_compute in "ASSUMPTIONS c13_modelled_dependencies_pinned". Print Assumptions c13_modelled_dependencies_pinned.
